@@ -208,6 +208,7 @@ def record_restructure(
     reload_between: bool = False,
     via_subgraphs: bool = False,
     default_recursion_limit: bool = False,
+    probe_names: bool = False,
 ) -> Dict[str, Any]:
     """Run join_returns / restructure_loop / restructure_branch on `scfg`,
     recording every primitive event and the full state at every stage."""
@@ -238,7 +239,21 @@ def record_restructure(
         ("branches", "restructure_branch"),
     )
     lim = sys.getrecursionlimit()
+    from numba_scfg.core.datastructures import block_names as _bn
+
+    probe_kinds = [getattr(_bn, k) for k in dir(_bn) if k.isupper() and isinstance(getattr(_bn, k), str)]
+
+    def probe() -> None:
+        # a client asks the graph's generator for one block name of EVERY kind (the kinds of the front ends' own blocks included),
+        # a region name and a variable name: none may be a name that is present (the requests are name events like any other)
+        for k in probe_kinds:
+            scfg.name_gen.new_block_name(k)
+        scfg.name_gen.new_region_name("loop")
+        scfg.name_gen.new_var_name("control")
+
     with Tracer(scfg, pids, primitives, names) as t:
+        if probe_names:
+            probe()
         for name, fn in steps:
             if reload_between and name != "closed":
                 # write the graph out and read it back between stages (C18 histories); the new object replaces the old
@@ -277,6 +292,8 @@ def record_restructure(
                 break
             sys.setrecursionlimit(lim)
             t.log("stage", "x", st0["root"], {"name": name})
+            if probe_names:
+                probe()
             beh["reached"] = name
             if stage_states:
                 beh["stages"][name] = t.last
